@@ -249,10 +249,13 @@ Findings(l) ==
         ELSE \* both refuse: a refused transaction changes nothing
              {[l |-> l, kind |-> "diff", m |-> m, atom |-> a, props |-> {"C08"} \cup AtomProps(a, m)] : a \in StateAtoms(pre, o) \ {"now"}}
       inv == {[l |-> l, kind |-> "inv", m |-> m, atom |-> n, props |-> InvProps(o)] : n \in InvNames(o)}
+      \* C15: the State query reports the purchase rate LST / staked of the stored totals
+      qrate == {[l |-> l, kind |-> "inv", m |-> m, atom |-> "State.rate", props |-> {"C15"}] :
+                  x \in R(~e.post.c.stateErr /\ (o.c.L = 0 \/ o.c.N > 0) /\ e.post.c.rate # Rates(o.c.N, o.c.L)[2], 1)}
       act == {[l |-> l, kind |-> "act", m |-> m, atom |-> "Act_C06", props |-> {"C06"}] : x \in R(~Act_C06(pre, o), 1)}
              \cup {[l |-> l, kind |-> "act", m |-> m, atom |-> "Act_C04", props |-> {"C04"}] :
                      x \in R(e.res.ok /\ ~Act_C04(pre, o, [m |-> m]), 1)}
-  IN panic \cup cmp \cup inv \cup act
+  IN panic \cup cmp \cup inv \cup qrate \cup act
 
 \* ------------------------------------------------------------------ the trace as a behaviour
 VARIABLES l, nfind
